@@ -1,7 +1,7 @@
 (* C09 -- linear algebra over the reals for the Miller / lattice model:
    inverse, determinant, metric tensors, cross products, orthonormal frames. *)
 From Coq Require Import Reals ZArith Lra Nsatz Bool List Psatz.
-From Verif Require Import Scalar RInst C09Lin C09Miller C09.
+From Verif Require Import Scalar RInst C09Lin C09Miller C09Model.
 Import ListNotations.
 Local Open Scope R_scope.
 
